@@ -332,6 +332,19 @@ func c10SkipOnly(c *Ctx) {
 		"an iteration over the requested range can continue without selecting the chunk and without the done-bit or null-chunk test: the range would be served from unpopulated zeros")
 }
 
+// c10SizeCmp: bo compares (== or !=) the size of the cache file with the length of the index,
+// directly or through the parameters of a helper explored in place.
+func c10SizeCmp(st *State, bo *ssa.BinOp) bool {
+	if bo.Op != token.EQL && bo.Op != token.NEQ {
+		return false
+	}
+	is := func(what string) func(ssa.Value) bool {
+		return func(v ssa.Value) bool { return originHas(what)(v) || originHas(what)(st.ArgOf(v)) }
+	}
+	isSize, isLen := is("FileInfo).Size#0"), is("desync.Index).Length#0")
+	return (isSize(bo.X) && isLen(bo.Y)) || (isSize(bo.Y) && isLen(bo.X))
+}
+
 func c10Truncate(c *Ctx) {
 	fn := c.mustFn("NewSparseFile")
 	if fn == nil {
@@ -367,13 +380,11 @@ func c10Truncate(c *Ctx) {
 		Instr: func(st *State, ins ssa.Instruction) {
 			// the comparison evaluated somewhere else than in the branch (a helper that returns it):
 			// its value carries a label to wherever it is branched on
-			if bo, ok := ins.(*ssa.BinOp); ok && bo.Op == token.EQL {
-				isSize := originHas("FileInfo).Size#0")
-				isLen := func(v ssa.Value) bool {
-					return originHas("desync.Index).Length#0")(v) || originHas("desync.Index).Length#0")(st.ArgOf(v))
-				}
-				if (isSize(bo.X) && isLen(bo.Y)) || (isSize(bo.Y) && isLen(bo.X)) {
+			if bo, ok := ins.(*ssa.BinOp); ok && c10SizeCmp(st, bo) {
+				if bo.Op == token.EQL {
 					st.V[bo] = Val{Sym: "size-match"}
+				} else {
+					st.V[bo] = Val{Sym: "size-differs"}
 				}
 			}
 		},
@@ -388,17 +399,20 @@ func c10Truncate(c *Ctx) {
 				}
 				break
 			}
-			if _, isCmp := v.(*ssa.BinOp); !isCmp && st.Eval(v).Sym == "size-match" && taken != neg {
-				st.Flags["size-match"] = 1
+			if bo, isCmp := v.(*ssa.BinOp); isCmp {
+				if c10SizeCmp(st, bo) && (taken != neg) == (bo.Op == token.EQL) {
+					st.Flags["size-match"] = 1
+				}
+				return
 			}
-			v = iff.Cond
-			if bo, ok := v.(*ssa.BinOp); ok && bo.Op == token.EQL {
-				isSize := originHas("FileInfo).Size#0")
-				isLen := originHas("desync.Index).Length#0")
-				if (isSize(bo.X) && isLen(bo.Y)) || (isSize(bo.Y) && isLen(bo.X)) {
-					if taken {
-						st.Flags["size-match"] = 1
-					}
+			switch st.Eval(v).Sym {
+			case "size-match":
+				if taken != neg {
+					st.Flags["size-match"] = 1
+				}
+			case "size-differs":
+				if taken == neg {
+					st.Flags["size-match"] = 1
 				}
 			}
 		},
